@@ -87,6 +87,8 @@ def scan(binary, mode, seed0, count, hashfile):
 
 def schedule_text(f):
     t = [f"clients {f['clients']}"]
+    if f.get("clock"):
+        t.append(f"clock {f['clock']['policy']} {f['clock']['seed']}")
     for seg in f["segments"]:
         for c in seg.get("respawn_before", []):
             t.append(f"respawn {c}")
@@ -154,7 +156,7 @@ def write_evidence(tier, seed, cov, wall, violations, assumptions):
 SUMMED = ["runs", "calls", "forks", "nontrivial_runs", "isolation_checks", "disagreements", "signals_caught", "items_lost",
           "hung_children", "unstable", "fine_executions", "concurrent_segments", "concurrent_calls", "yield_points",
           "preemptions", "baton_handoffs", "long_runs", "very_long_runs", "hot_loop_runs", "crowd_runs", "churn_runs", "planned_respawns", "threads_started",
-          "allocations_inside_library_calls", "allocation_failures_injected", "plans_with_allocations", "fault_injecting_executions",
+          "clock_queries_inside_library_calls", "simulated_ns", "allocations_inside_library_calls", "allocation_failures_injected", "plans_with_allocations", "fault_injecting_executions",
           "access_records", "nonstack_writes_observed", "conflicting_call_pairs", "plans_with_conflicts", "directed_executions"]
 
 
@@ -301,7 +303,11 @@ def run_check(tier, seed):
                         "plans, of what audit/seam_audit.py shows statically)")},
         "library_calls_executed": total["calls"],
         "processes_forked": total["forks"],
-        "simulated_time": "not applicable: the library has no clock, timer or deadline; progress is counted in calls and yield points",
+        "simulated_time": {"seconds_covered_summed_over_executions": round(total["simulated_ns"] / 1e9, 3),
+                           "clock_queries_inside_library_calls": total["clock_queries_inside_library_calls"],
+                           "policies": "steady (10us per call, 1us per query): plan-order, fine-mode, isolated; jumpy (seeded us..days per call): reverse-order",
+                           "note": "0 queries means the library never asked what time it is on any explored path (the audit says the same statically); "
+                                   "the seconds covered are then simulated time that nothing observed"},
         "build_cells": per_cell,
         "clients_per_run_histogram": dict({str(i + 1): clients_hist[i] for i in range(8)}, **{"more_than_8": clients_hist_crowd}),
         "plan_lengths": {"runs_with_150_plus_calls": total["long_runs"], "runs_with_3000_plus_calls": total["very_long_runs"],
